@@ -328,6 +328,9 @@ func (m *Manager) DeleteNamespace(name string) error {
 		return nil
 	}
 
+	// the other slot is rebuilt below, a pending prepare is no longer valid
+	m.reloadPrepared.Set(false)
+
 	// delete namespace of other
 	currentNamespaceManager := m.namespaces[current]
 	newNamespaceManager := ShallowCopyNamespaceManager(currentNamespaceManager)
